@@ -19,7 +19,10 @@ var registry = map[string]check{
 	"C01": {"model_checking", checks.C01},
 	"C04": {"model_checking", checks.C04},
 	"C05": {"model_checking", checks.C05},
+	"C06": {"model_checking", checks.C06},
+	"C07": {"model_checking", checks.C07},
 	"C08": {"model_checking", checks.C08},
+	"C15": {"model_checking", checks.C15},
 	"C09": {"model_checking", checks.C09},
 	"C10": {"model_checking", checks.C10},
 	"C13": {"model_checking", checks.C13},
